@@ -234,16 +234,16 @@ func init() {
 	}
 	checks["C13"] = &CheckDef{
 		Pkgs: []string{"./control"}, Splice: true,
-		Harness: []string{"control:Verif_C13_taskpool", "control:Verif_C13_taskpool_recycle", "control:Verif_C13_tuples", "control:Verif_C13_tuples_handover", "control:Verif_C13_overflow", "control:Verif_C13_endpoint_pool", "control:Verif_C13_endpoint_cooldown"},
+		Harness: []string{"control:Verif_C13_taskpool", "control:Verif_C13_taskpool_recycle", "control:Verif_C13_tuples", "control:Verif_C13_tuples_handover", "control:Verif_C13_overflow", "control:Verif_C13_endpoint_pool", "control:Verif_C13_endpoint_cooldown", "control:Verif_C13_endpoint_invalidation"},
 		Stubs: map[string]string{"(*github.com/daeuniverse/dae/control.UdpEndpoint).prewarmResponseConn": "noop", "github.com/daeuniverse/dae/control.reportUdpEndpointDialCreateFailure": "noop"},
 		MaxIter: 1000,
 		Level:   "other",
-		LevelText: "The real UdpTaskPool (EmitTask, acquireQueue, enqueue, convoy with its idle timer, tryDeleteQueue, channel recycling through sync.Pool) and the real conn-state tuple tracker (Retain / BeginRelease / FinalizeRelease / Forget with waiters on an in-flight deletion, through controlPlaneCore.Retain/Release/TransferRetainedUdpConnStateTuples) run as goroutines under the engine's schedule exploration: every interleaving at blocking operations plus one preemption at any atomic / mutex / channel / sync.Map / timer operation, the idle timer free to fire whenever its waiter is scheduled; schedules are symbolic inputs enumerated by the solver and pinned in the replay file. Obligations: every accepted task runs exactly once, tasks of a flow never overlap and keep each producer's order, nothing is lost in or run from a recycled channel; a kernel flow entry is deleted only when no owner holds its tuple, is gone once the last owner has gone (also when a reload moved ownership to the next generation's tracker), nothing stays tracked and no goroutine stays blocked on a deletion. The real UdpEndpointPool.GetOrCreate / createEndpointLocked / retire / Close / cacheFailureLocked run against a model dialer and model packet sockets: two concurrent first packets of one source cause a single dial and share the endpoint, a later packet reuses it, a write error retires it and closes its transport exactly once, the retired endpoint is never handed out again (a new dial follows), closing twice closes once; after a failed dial the source is refused without dialling until the cool-down has passed on an arbitrary clock. Two genuine defects were found with this check and repaired (see known_findings.json): the idle collection could remove a queue that still held a task, and an overflowing burst could overtake older tasks in the channel.",
+		LevelText: "The real UdpTaskPool (EmitTask, acquireQueue, enqueue, convoy with its idle timer, tryDeleteQueue, channel recycling through sync.Pool) and the real conn-state tuple tracker (Retain / BeginRelease / FinalizeRelease / Forget with waiters on an in-flight deletion, through controlPlaneCore.Retain/Release/TransferRetainedUdpConnStateTuples) run as goroutines under the engine's schedule exploration: every interleaving at blocking operations plus one preemption at any atomic / mutex / channel / sync.Map / timer operation, the idle timer free to fire whenever its waiter is scheduled; schedules are symbolic inputs enumerated by the solver and pinned in the replay file. Obligations: every accepted task runs exactly once, tasks of a flow never overlap and keep each producer's order, nothing is lost in or run from a recycled channel; a kernel flow entry is deleted only when no owner holds its tuple, is gone once the last owner has gone (also when a reload moved ownership to the next generation's tracker), nothing stays tracked and no goroutine stays blocked on a deletion. The real UdpEndpointPool.GetOrCreate / createEndpointLocked / retire / Close / cacheFailureLocked run against a model dialer and model packet sockets: two concurrent first packets of one source cause a single dial and share the endpoint, a later packet reuses it, a write error retires it and closes its transport exactly once, the retired endpoint is never handed out again (a new dial follows), closing twice closes once; after a failed dial the source is refused without dialling until the cool-down has passed on an arbitrary clock; when the node behind an endpoint is reported not alive, an endpoint that has not yet carried traffic is retired (closed once, never handed out again) and one that has is kept. Two genuine defects were found with this check and repaired (see known_findings.json): the idle collection could remove a queue that still held a task, and an overflowing burst could overtake older tasks in the channel.",
 		LevelNote: "Trusted: go/ssa, executor and its cooperative thread model (goroutines switch only at synchronisation operations: data-race-free code assumed; an unbuffered channel is a one-slot buffer), z3. Endpoint pool: the reply path to the client (Anyfrom sockets; prewarmResponseConn is stubbed), dialer health reporting (stubbed), the janitor, health invalidation epochs and generation adoption are not covered.",
 		Technique: techniqueText,
 		Explanation: "Bounded schedule exploration (symbolic schedules, bounded preemptions) of the UDP task pool and the conn-state tuple tracker.",
 		Bounds: map[string]string{"quick": "task pool: 2 producers, 3 tasks, one or two flow keys, 1 preemption, each timer fires <=2 times; overflow: bursts of 1/128/129/257/430 tasks for one flow before the worker runs, 0-2 later tasks (deterministic schedule); endpoint pool: 2 concurrent GetOrCreate on one key (all interleavings at blocking points, the dial yields), then reuse, write error, re-dial, double close; cool-down on an arbitrary clock; tuples: 3 owners over 2 tuples (1 preemption), hand-over of 1 tuple between two generations with a concurrent close", "thorough": "2 preemptions for the task pool"},
-		Outside: []string{"UdpEndpointPool janitor, InvalidateDialerNetworkType, adoptGeneration, Reset/Close of the pool, reply loop to the client", "overflow FIFO interleaved with concurrent producers (the burst harness fills it before the worker runs)", "task panics", "pool Close/Reset racing with producers", "data races on non-atomic fields"},
+		Outside: []string{"UdpEndpointPool janitor, adoptGeneration, Reset/Close of the pool, reply loop to the client", "overflow FIFO interleaved with concurrent producers (the burst harness fills it before the worker runs)", "task panics", "pool Close/Reset racing with producers", "data races on non-atomic fields"},
 		Assumptions: []string{"goroutines switch only at synchronisation operations", "BpfMapBatchDelete replaced by a shadow table", "model dialer / packet socket; prewarmResponseConn and reportUdpEndpointDialCreateFailure stubbed", "the kernel re-creates a flow entry once an owner has retained its tuple"},
 		QuickBudget: 10 * time.Minute, ThoroughBudget: 20 * time.Minute,
 	}
